@@ -793,18 +793,49 @@ func (t *fnTrans) elemInvAssert(in ssa.Instruction, ch ssa.Value, v string, elem
 }
 
 
+// chanField resolves the struct field a channel value was loaded from (through phis whose
+// edges all load the same field).
+func (t *fnTrans) chanField(ch ssa.Value, seen map[ssa.Value]bool) (*StructAnn, string) {
+	switch x := ch.(type) {
+	case *ssa.UnOp:
+		if x.Op != token.MUL {
+			return nil, ""
+		}
+		fa, ok := x.X.(*ssa.FieldAddr)
+		if !ok {
+			return nil, ""
+		}
+		pt := fa.X.Type().Underlying().(*types.Pointer)
+		st := pt.Elem().Underlying().(*types.Struct)
+		return t.g.ann.structs[t.g.typeKey(pt.Elem())], st.Field(fa.Field).Name()
+	case *ssa.Phi:
+		if seen[x] {
+			return nil, ""
+		}
+		seen[x] = true
+		var sa *StructAnn
+		name := ""
+		for _, e := range x.Edges {
+			if ep, isP := e.(*ssa.Phi); isP && seen[ep] {
+				continue
+			}
+			a, n := t.chanField(e, seen)
+			if a == nil {
+				return nil, ""
+			}
+			if sa == nil {
+				sa, name = a, n
+			} else if a != sa || n != name {
+				return nil, ""
+			}
+		}
+		return sa, name
+	}
+	return nil, ""
+}
+
 // chanNeverClosed: the channel value was loaded from a field declared never_closed.
 func (t *fnTrans) chanNeverClosed(ch ssa.Value) bool {
-	u, ok := ch.(*ssa.UnOp)
-	if !ok || u.Op != token.MUL {
-		return false
-	}
-	fa, ok := u.X.(*ssa.FieldAddr)
-	if !ok {
-		return false
-	}
-	pt := fa.X.Type().Underlying().(*types.Pointer)
-	st := pt.Elem().Underlying().(*types.Struct)
-	sa := t.g.ann.structs[t.g.typeKey(pt.Elem())]
-	return sa != nil && sa.openChan[st.Field(fa.Field).Name()]
+	sa, name := t.chanField(ch, map[ssa.Value]bool{})
+	return sa != nil && sa.openChan[name]
 }
